@@ -88,7 +88,7 @@ func collectRW(n ast.Node, recv string, fields map[string]bool, methods map[stri
 	})
 }
 
-func sortedKeys(m map[string]bool) []string {
+func vmSortedKeys(m map[string]bool) []string {
 	var out []string
 	for k := range m {
 		out = append(out, k)
@@ -397,7 +397,7 @@ func genVMReset() string {
 	}
 	fmt.Fprintf(&sb, "/-- direct field reads / writes of the helper methods -/\ndef helperReads : List (String × List String) := [\n  %s]\n", strings.Join(hr, ",\n  "))
 	fmt.Fprintf(&sb, "def helperWrites : List (String × List String) := [\n  %s]\n\n", strings.Join(hw, ",\n  "))
-	fmt.Fprintf(&sb, "/-- methods of *VM the loop or the epilogue call -/\ndef loopCalls : List String := %s\n\n", leanStrList(sortedKeys(func() map[string]bool {
+	fmt.Fprintf(&sb, "/-- methods of *VM the loop or the epilogue call -/\ndef loopCalls : List String := %s\n\n", leanStrList(vmSortedKeys(func() map[string]bool {
 		m := map[string]bool{}
 		for k := range rwLoop.calls {
 			m[k] = true
@@ -570,7 +570,7 @@ func (vs *vmSource) budgetSite(op string) budgetSite {
 	return site
 }
 
-func leanBool(b bool) string {
+func vmLeanBool(b bool) string {
 	if b {
 		return "true"
 	}
@@ -647,8 +647,8 @@ func genBudget() string {
 	for _, op := range []string{"OpRange", "OpArray", "OpMap"} {
 		s := vs.budgetSite(op)
 		fmt.Fprintf(&sb, "def %s : Site :=\n  { op := %s\n    body := %s\n    sizeExpr := %s\n    clamped := %s\n    clamp := %s\n    testLhs := %s\n    testOp := %s\n    testRhs := %s\n    failMsg := %s\n    addStmt := %s\n    testBeforeAdd := %s\n    pushBeforeTest := %s }\n\n",
-			names[op], leanStr(s.op), leanStr(s.body), leanStr(s.sizeExpr), leanBool(s.clamped), leanStr(s.clamp), leanStr(s.testLhs), leanStr(s.testOp),
-			leanStr(s.testRhs), leanStr(s.failMsg), leanStr(s.addStmt), leanBool(s.testBeforeAdd), leanBool(s.pushBeforeTest))
+			names[op], leanStr(s.op), leanStr(s.body), leanStr(s.sizeExpr), vmLeanBool(s.clamped), leanStr(s.clamp), leanStr(s.testLhs), leanStr(s.testOp),
+			leanStr(s.testRhs), leanStr(s.failMsg), leanStr(s.addStmt), vmLeanBool(s.testBeforeAdd), vmLeanBool(s.pushBeforeTest))
 	}
 	// every case of the dispatch switch that mentions vm.memory / vm.limit
 	var touching []string
